@@ -34,6 +34,7 @@ def run(ctx):
     ctx.run(B.flw24_integer_builder_differences)
     ctx.run(B.nul6_mixed_buffer_keeps_row_slots)
     ctx.run(T.tbl17_constant_translation_is_inverse)
+    ctx.run(OP.pan8_range_arithmetic)
     return ctx.finish(
         'Static analysis of compiler MIR: deadlock-freedom clauses (acyclic lock-order graph over '
         'all lock identities, no guard across blocking calls except tabled sites, paired condvar '
